@@ -3,7 +3,8 @@ LEVEL = "proof"
 LEAN_MODULES = ["CifModel.Props.C15"]
 REQUIRED = ["CifModel.C15_skip_depth_balanced", "CifModel.C15_skip_depth_nonneg", "CifModel.C15_skip_depth_cif", "CifModel.C15_stop_is_last", "CifModel.C15_end_ok", "CifModel.C15_positive_aborts", "CifModel.C15_skip_opens_region", "CifModel.C15_skipped_region_silent", "CifModel.C15_syntax_only_same_log", "CifModel.C15_value_mirror", "CifModel.C15_all_continue_mirror", "CifModel.C15_all_continue_mirror_parseCB", "CifModel.C15_stored_is_structural", "CifModel.C15_skip_semantics_rest", "CifModel.C15_unfiltered_is_denote", "CifModel.C15_result_nonneg", "CifModel.C15_positive_aborts_local",
             "CifModel.C15_loop_start_local", "CifModel.C15_cex_loop_start_pinned", "CifModel.C15_loop_start_code_returned",
-            "CifModel.C15_stored_is_structural_any", "CifModel.C15_stop_semantics_store", "CifModel.C15_cut_extends_pruned"]
+            "CifModel.C15_stored_is_structural_any", "CifModel.C15_stop_semantics_store", "CifModel.C15_cut_extends_pruned",
+            "CifModel.C15_dup_all_continue_mirror"]
 GEN = ["ErrCodes"]
 FAMILIES = ["pcb"]
 TRUSTED_BASE = [
@@ -39,7 +40,10 @@ PARTIAL = [
     "the handlers, its content is what later names are checked against and added to; a duplicate scalar gets its data-name "
     "callback and the error callback but no item handler and is not stored; a duplicate loop-header name is dropped from "
     "loop_start / the loop, its values are parsed without item handler; header names are checked against the container "
-    "even while skipping, against the header itself even without a container) and by the theorems named C15_dup_* ",
+    "even while skipping, against the header itself even without a container) and, for all-continue handlers and documents "
+    "whose loop headers repeat nothing, by the theorem C15_dup_all_continue_mirror (callbacks = dupEvents, store = dupDenote; "
+    "Spec/TraversalDup.lean); duplicate loop-header names and duplicates under skipping / stopping programs are covered by the "
+    "model + correspondence only",
 ]
 LEVEL_TEXT = ("Proof about the executable token-level model ParseCB.parseCB. For all token sequences and all handler programs: "
               "skip_depth balance of every production, an END / error answer is the last callback and determines the result, "
